@@ -1,5 +1,5 @@
 //! Native driver for `<SystemController as Future>::poll` (real tokio channels).
-//! line: ops  reg:<k> dereg:<k> exit:<code> poll   -> after every poll: "P=<pending|ready> code=<none|n> stops=[a,b,c]"
+//! line: ops  reg:<k> dereg:<k> die:<k> (arbiter k's receiver is closed: its loop has ended) exit:<code> poll   -> after every poll: "P=<pending|ready> code=<none|n> stops=[a,b,c]"
 use super::*;
 use crate::arbiter::{ArbiterCommand, ArbiterHandle};
 fn noop_waker() -> std::task::Waker {
@@ -20,6 +20,7 @@ pub(crate) fn run(line: &str) -> String {
     for op in line.split_whitespace() {
         if let Some(k) = op.strip_prefix("reg:") { let k: usize = k.parse().unwrap(); let _ = sys_tx.send(SystemCommand::RegisterArbiter(k, ArbiterHandle::new(arbs[k].0.clone()))); }
         else if let Some(k) = op.strip_prefix("dereg:") { let _ = sys_tx.send(SystemCommand::DeregisterArbiter(k.parse().unwrap())); }
+        else if let Some(k) = op.strip_prefix("die:") { let k: usize = k.parse().unwrap(); arbs[k].1.close(); while arbs[k].1.try_recv().is_ok() {} }
         else if let Some(c) = op.strip_prefix("exit:") { let _ = sys_tx.send(SystemCommand::Exit(c.parse().unwrap())); }
         else if op == "poll" {
             let r = Pin::new(&mut ctl).poll(&mut cx);
